@@ -33,6 +33,21 @@ def pendMention (l : Led.St) (addrs : List Addr) : Nat :=
 def countsTok (cs : List (String × Nat)) : String :=
   Led.joinSorted ((cs.filter (fun c => c.2 > 0)).map (fun c => s!"{c.1}:{c.2}"))
 
+/-- one transaction of asyncRemove for the parked wallet -/
+def remStep1 (st : St) (two : Bool) : St × String :=
+  let i := getI st two
+  let l := i.led
+  match i.rm with
+  | none => (st, "bad-op")
+  | some w =>
+    match removeStep Gen.Handler.removeCreditStep (Led.ctx l) w (Model.Import.managed l.own w) l.store with
+    | none => (setI st two { i with rm := none }, "done-err")
+    | some o =>
+      let l := { l with store := o.s, vol := removeMempool l.vol o.removedTx }
+      if o.finish then
+        (setI st two { i with led := dropKeystore l w, rm := none }, "done-ok")
+      else (setI st two { i with led := l }, "parked")
+
 def instStep (st : St) (two : Bool) (args : List String) : St × String :=
   let i := getI st two
   let l := i.led
@@ -44,20 +59,20 @@ def instStep (st : St) (two : Bool) (args : List String) : St × String :=
     (setI st two { i with led := { l with store := s' }, queue := q }, gateTok r)
   | ["rembegin", w] =>
     if (AMap.get st.known w).isNone || i.rm.isSome then (st, "bad-op") else
-    if !l.wallets.contains w then (st, "done-ok")            -- keystore not found: asyncRemove returns nil
-    else if i.quit then (st, "done-abort")
+    -- the worker runs asyncRemove only for a queued task, i.e. a wallet flagged for removal (or already gone)
+    if (match AMap.get l.store.status w with | some ws => !ws.removed | none => false) then (st, "bad-op") else
+    let i := { i with begun := true }
+    if !l.wallets.contains w then (setI st two i, "done-ok")     -- keystore not found: asyncRemove returns nil
+    else if i.quit then (setI st two i, "done-abort")
     else (setI st two { i with rm := some w }, "parked")
-  | ["remstep"] =>
-    match i.rm with
+  | ["remstep"] => remStep1 st two
+  | ["remsteps", ns] =>
+    match ns.toNat? with
     | none => (st, "bad-op")
-    | some w =>
-      match removeStep Gen.Handler.removeCreditStep (Led.ctx l) w (Model.Import.managed l.own w) l.store with
-      | none => (setI st two { i with rm := none }, "done-err")
-      | some o =>
-        let l := { l with store := o.s, vol := removeMempool l.vol o.removedTx }
-        if o.finish then
-          (setI st two { i with led := dropKeystore l w, rm := none }, "done-ok")
-        else (setI st two { i with led := l }, "parked")
+    | some n =>
+      -- a removal must have been begun (finished or not); then up to n transactions, silently
+      if !i.begun then (st, "bad-op") else
+      ((List.range n).foldl (fun st _ => if (getI st two).rm.isSome then (remStep1 st two).1 else st) st, "ok")
   | ["remquit"] =>
     match i.rm with
     | none => (st, "bad-op")
